@@ -307,8 +307,82 @@ pub static V_PAIRS: Variant = Variant { name: "backreference_pairs", choice_len:
 pub static V_HOOK: Variant = Variant { name: "engine_fold_vs_classes", choice_len: 1, gen: gen_hook, check: check_hook };
 pub static V_COMPOSE: Variant = Variant { name: "icase_composition", choice_len: 400, gen: gen_compose, check: super::c01::check };
 
+// ---- (4) \b and \B with the tested character on the LEFT and on the RIGHT of the position, every scalar value,
+// every flag set that changes the word-character set, both executors
+
+const WB_BLOCK: u32 = 0x1000;
+
+fn wb_cases() -> Vec<Case> {
+    let mut out = vec![];
+    for b in 0..0x110000 / WB_BLOCK {
+        for f in ["", "i", "u", "iu", "iv"] {
+            out.push(mk(String::new(), f, json!({"kind": "wb", "block": b})));
+        }
+    }
+    out
+}
+
+fn gen_wb(src: &mut Src, _t: Tier) -> Case {
+    let v = wb_cases();
+    v[(src.raw() as usize).min(v.len() - 1)].clone()
+}
+
+fn check_wb(case: &Case, l: &mut Local) -> Verdict {
+    let fl = Fl::parse(&case.flags);
+    let b = case.x["block"].as_u64().unwrap_or(0) as u32;
+    let w = udata::basic_word();
+    // ES WordCharacters: the basic word characters, plus - under i together with u/v - every character whose
+    // canonical form is the canonical form of one of them (U+017F, U+212A)
+    let is_word = |c: u32| w.contains(c) || (fl.i && fl.unicode() && w.contains(udata::canon(c, true)));
+    // haystack: -c-c-c-... (dash = non-word): a boundary exists at both ends of c exactly when c is a word character
+    let mut h = String::from("-");
+    let mut want_b: Vec<(usize, usize)> = vec![];
+    let mut want_nb: Vec<(usize, usize)> = vec![(0, 0)];
+    for c in (b * WB_BLOCK..(b + 1) * WB_BLOCK).filter_map(char::from_u32) {
+        let s = h.len();
+        h.push(c);
+        let e = h.len();
+        h.push('-');
+        if is_word(c as u32) {
+            want_b.push((s, s));
+            want_b.push((e, e));
+        } else {
+            want_nb.push((s, s));
+            want_nb.push((e, e));
+        }
+    }
+    want_nb.push((h.len(), h.len()));
+    if h.len() == 1 {
+        return Verdict::Skip("surrogate_block");
+    }
+    for (p, want) in [("\\b", &want_b), ("\\B", &want_nb)] {
+        let cps: Vec<u32> = p.chars().map(|c| c as u32).collect();
+        for no_opt in [false, true] {
+            let re = match compile(&cps, fl, no_opt) {
+                Ok(r) => r,
+                Err(e) => return Verdict::Fail(format!("/{}/{} does not compile: {}", p, case.flags, e)),
+            };
+            for eng in [Engine::Bt, Engine::Pike] {
+                let got: Vec<(usize, usize)> = match find_all(&re, eng, Enc::Utf8, &h, 0, 3 * WB_BLOCK as usize + 8, u64::MAX) {
+                    Out::Ms(v) => v.iter().map(|m| (m.s, m.e)).collect(),
+                    o => return Verdict::Fail(format!("/{}/{} ({:?}): {}", p, case.flags, eng, o.show())),
+                };
+                if &got != want {
+                    let bad = got.iter().find(|x| !want.contains(x)).or_else(|| want.iter().find(|x| !got.contains(x))).copied().unwrap_or((0, 0));
+                    let near: String = h[..bad.0].chars().rev().take(1).chain(h[bad.0..].chars().take(1)).map(|c| format!("U+{:04X} ", c as u32)).collect();
+                    return Verdict::Fail(format!("/{}/{} ({:?}, {}) on -c-c-...: position {} (between {}) is {} but the ES word-character set says otherwise", p, case.flags, eng, if no_opt { "no_opt" } else { "opt" }, bad.0, near.trim(), if got.contains(&bad) { "reported" } else { "not reported" }));
+                }
+            }
+        }
+    }
+    l.add("word_boundary_positions_checked", 8 * want_b.len() as u64 + 8 * want_nb.len() as u64);
+    Verdict::Pass { nontrivial: !want_b.is_empty() }
+}
+
+pub static V_WB: Variant = Variant { name: "word_boundary_sweep", choice_len: 1, gen: gen_wb, check: check_wb };
+
 pub fn variants() -> Vec<&'static Variant> {
-    vec![&V_SWEEP, &V_PAIRS, &V_HOOK, &V_COMPOSE]
+    vec![&V_SWEEP, &V_PAIRS, &V_HOOK, &V_COMPOSE, &V_WB]
 }
 
 pub fn run(ctx: &Ctx) -> i32 {
@@ -317,11 +391,12 @@ pub fn run(ctx: &Ctx) -> i32 {
     ctx.run_list(&V_HOOK, &[mk(String::new(), "", json!({"kind": "hook"}))]);
     ctx.run_list(&V_PAIRS, &pair_cases());
     ctx.run_list(&V_SWEEP, &sweep_cases(ctx.tier));
+    ctx.run_list(&V_WB, &wb_cases());
     ctx.run_variant(&V_COMPOSE, ctx.scale(300_000, 5_000_000));
     ctx.agg.lock().unwrap().exhaustive = true;
     ctx.finish(
         "exploration",
-        "EXHAUSTIVE over code points, both rules (legacy upper-casing without u/v; Unicode 17 simple case folding with u/v): (1) every code point either side regards as case-sensitive (oracle classes + everything the engine's own fold moves, ~4.6k) as a bare literal /c/i and /c/iu, run as (?:c)+ over a haystack of ALL 1,112,064 scalar values - the matched set must be exactly the oracle class (compile-time expansion path); (2) /^(.)\\1$/is{,u,v} on every ordered pair inside every non-trivial class and against neighbours/decoys, both executors and pipelines (match-time folding), plus - through the hook - the engine's canonical form must be constant on each oracle class and distinct across classes for all 1.1M code points; (3) classes: [\\u{a}-\\u{b}] for every 256-block containing a case-sensitive code point (all 4352 blocks in the thorough tier) under i and iu, negated and v samples, and \\w \\W \\d \\D \\s \\S . [^] \\p{Lu} \\P{Lu} [^\\p{Lu}] [\\P{Lu}] ... as atoms and inside brackets under i / iu / iv, each swept over all scalar values against the set the reference model derives from the spec's definitions (opt and no_opt); (4) random composition under i over case-special alphabets judged by the reference model. Non-trivial sweep = the i flag changes the denoted set.",
+        "WORD BOUNDARIES: \\b and \\B on -c-c-c-... for EVERY scalar value c (the tested character on the left and on the right of the position) under -, i, u, iu, iv, both executors, both pipelines; EXHAUSTIVE over code points, both rules (legacy upper-casing without u/v; Unicode 17 simple case folding with u/v): (1) every code point either side regards as case-sensitive (oracle classes + everything the engine's own fold moves, ~4.6k) as a bare literal /c/i and /c/iu, run as (?:c)+ over a haystack of ALL 1,112,064 scalar values - the matched set must be exactly the oracle class (compile-time expansion path); (2) /^(.)\\1$/is{,u,v} on every ordered pair inside every non-trivial class and against neighbours/decoys, both executors and pipelines (match-time folding), plus - through the hook - the engine's canonical form must be constant on each oracle class and distinct across classes for all 1.1M code points; (3) classes: [\\u{a}-\\u{b}] for every 256-block containing a case-sensitive code point (all 4352 blocks in the thorough tier) under i and iu, negated and v samples, and \\w \\W \\d \\D \\s \\S . [^] \\p{Lu} \\P{Lu} [^\\p{Lu}] [\\P{Lu}] ... as atoms and inside brackets under i / iu / iv, each swept over all scalar values against the set the reference model derives from the spec's definitions (opt and no_opt); (4) random composition under i over case-special alphabets judged by the reference model. Non-trivial sweep = the i flag changes the denoted set.",
         &["oracle: std full upper-casing (Unicode 17) + the ES legacy rule; simple case folding classes exported from V8/ICU 78 (oracle/scf17_classes.txt), block-closure-verified at export time", "hook: regress::verif::fold_code_point"],
     )
 }
